@@ -1,5 +1,7 @@
 From Coq Require Import Extraction ExtrOcamlBasic.
-From PV Require Import Lib.ExtractBase Lib.Decimal Gen.PhoutGen Model.Phout.
+From PV Require Import Lib.ExtractBase Lib.Decimal Gen.PhoutGen Model.Phout Model.Aggregator Model.Shutdown.
 Extraction Language OCaml.
 Extraction "extracted/C06_model.ml" xb_types ms_of_ns render_phout parse_phout sample_ok fields_array
-  documented_columns render_file parse_file gen_cli_signal_waits.
+  documented_columns render_file parse_file
+  Aggregator.init Aggregator.step Aggregator.run Aggregator.run_error Aggregator.finish_history complete_b
+  pool_init prun proc_init crun cli_waits orderly all_true.
